@@ -45,9 +45,10 @@ package cmd
 //@ requires len(args) > 0
 //@ assigns *
 //@ may_emit *
-//@ ensures[C20] one_call_to_the_matching_rpc: count(RpcCall(_, _, _)) <= 1 && all(RpcCall, $1 == "kamal-proxy.Pause") && count(RpcDial(_, _)) == 1
+//@ ensures[C20] one_call_to_the_matching_rpc: count(RpcCall(_, _, _, _)) <= 1 && all(RpcCall, $1 == "kamal-proxy.Pause") && count(RpcDial(_, _)) == 1
+//@ ensures[C20,C06] the_reply_is_what_the_handler_sends: all(RpcCall, $3)
 //@ ensures[C20,C01,C06] fails_exactly_when_the_proxy_reports_an_error: all(RpcCall, $2 == (result == nil)) && (none(RpcCall) ==> result != nil)
-//@ ensures[C20] connection_closed: emitted(RpcCall(_, _, _)) ==> count(RpcClose(_)) == 1
+//@ ensures[C20] connection_closed: emitted(RpcCall(_, _, _, _)) ==> count(RpcClose(_)) == 1
 
 //@ func (*cmd.removeCommand).run
 //@ attr inline = cmd.withRPCClient
@@ -55,9 +56,10 @@ package cmd
 //@ requires len(args) > 0
 //@ assigns *
 //@ may_emit *
-//@ ensures[C20] one_call_to_the_matching_rpc: count(RpcCall(_, _, _)) <= 1 && all(RpcCall, $1 == "kamal-proxy.Remove") && count(RpcDial(_, _)) == 1
+//@ ensures[C20] one_call_to_the_matching_rpc: count(RpcCall(_, _, _, _)) <= 1 && all(RpcCall, $1 == "kamal-proxy.Remove") && count(RpcDial(_, _)) == 1
+//@ ensures[C20,C06] the_reply_is_what_the_handler_sends: all(RpcCall, $3)
 //@ ensures[C20,C01,C06] fails_exactly_when_the_proxy_reports_an_error: all(RpcCall, $2 == (result == nil)) && (none(RpcCall) ==> result != nil)
-//@ ensures[C20] connection_closed: emitted(RpcCall(_, _, _)) ==> count(RpcClose(_)) == 1
+//@ ensures[C20] connection_closed: emitted(RpcCall(_, _, _, _)) ==> count(RpcClose(_)) == 1
 
 //@ func (*cmd.resumeCommand).run
 //@ attr inline = cmd.withRPCClient
@@ -65,9 +67,10 @@ package cmd
 //@ requires len(args) > 0
 //@ assigns *
 //@ may_emit *
-//@ ensures[C20] one_call_to_the_matching_rpc: count(RpcCall(_, _, _)) <= 1 && all(RpcCall, $1 == "kamal-proxy.Resume") && count(RpcDial(_, _)) == 1
+//@ ensures[C20] one_call_to_the_matching_rpc: count(RpcCall(_, _, _, _)) <= 1 && all(RpcCall, $1 == "kamal-proxy.Resume") && count(RpcDial(_, _)) == 1
+//@ ensures[C20,C06] the_reply_is_what_the_handler_sends: all(RpcCall, $3)
 //@ ensures[C20,C01,C06] fails_exactly_when_the_proxy_reports_an_error: all(RpcCall, $2 == (result == nil)) && (none(RpcCall) ==> result != nil)
-//@ ensures[C20] connection_closed: emitted(RpcCall(_, _, _)) ==> count(RpcClose(_)) == 1
+//@ ensures[C20] connection_closed: emitted(RpcCall(_, _, _, _)) ==> count(RpcClose(_)) == 1
 
 //@ func (*cmd.rolloutDeployCommand).run
 //@ attr inline = cmd.withRPCClient
@@ -75,9 +78,10 @@ package cmd
 //@ requires len(args) > 0
 //@ assigns *
 //@ may_emit *
-//@ ensures[C20] one_call_to_the_matching_rpc: count(RpcCall(_, _, _)) <= 1 && all(RpcCall, $1 == "kamal-proxy.RolloutDeploy") && count(RpcDial(_, _)) == 1
+//@ ensures[C20] one_call_to_the_matching_rpc: count(RpcCall(_, _, _, _)) <= 1 && all(RpcCall, $1 == "kamal-proxy.RolloutDeploy") && count(RpcDial(_, _)) == 1
+//@ ensures[C20,C06] the_reply_is_what_the_handler_sends: all(RpcCall, $3)
 //@ ensures[C20,C01,C06] fails_exactly_when_the_proxy_reports_an_error: all(RpcCall, $2 == (result == nil)) && (none(RpcCall) ==> result != nil)
-//@ ensures[C20] connection_closed: emitted(RpcCall(_, _, _)) ==> count(RpcClose(_)) == 1
+//@ ensures[C20] connection_closed: emitted(RpcCall(_, _, _, _)) ==> count(RpcClose(_)) == 1
 
 //@ func (*cmd.rolloutSetCommand).run
 //@ attr inline = cmd.withRPCClient
@@ -85,9 +89,10 @@ package cmd
 //@ requires len(args) > 0
 //@ assigns *
 //@ may_emit *
-//@ ensures[C20] one_call_to_the_matching_rpc: count(RpcCall(_, _, _)) <= 1 && all(RpcCall, $1 == "kamal-proxy.RolloutSet") && count(RpcDial(_, _)) == 1
+//@ ensures[C20] one_call_to_the_matching_rpc: count(RpcCall(_, _, _, _)) <= 1 && all(RpcCall, $1 == "kamal-proxy.RolloutSet") && count(RpcDial(_, _)) == 1
+//@ ensures[C20,C06] the_reply_is_what_the_handler_sends: all(RpcCall, $3)
 //@ ensures[C20,C01,C06] fails_exactly_when_the_proxy_reports_an_error: all(RpcCall, $2 == (result == nil)) && (none(RpcCall) ==> result != nil)
-//@ ensures[C20] connection_closed: emitted(RpcCall(_, _, _)) ==> count(RpcClose(_)) == 1
+//@ ensures[C20] connection_closed: emitted(RpcCall(_, _, _, _)) ==> count(RpcClose(_)) == 1
 
 //@ func (*cmd.rolloutStopCommand).run
 //@ attr inline = cmd.withRPCClient
@@ -95,9 +100,10 @@ package cmd
 //@ requires len(args) > 0
 //@ assigns *
 //@ may_emit *
-//@ ensures[C20] one_call_to_the_matching_rpc: count(RpcCall(_, _, _)) <= 1 && all(RpcCall, $1 == "kamal-proxy.RolloutStop") && count(RpcDial(_, _)) == 1
+//@ ensures[C20] one_call_to_the_matching_rpc: count(RpcCall(_, _, _, _)) <= 1 && all(RpcCall, $1 == "kamal-proxy.RolloutStop") && count(RpcDial(_, _)) == 1
+//@ ensures[C20,C06] the_reply_is_what_the_handler_sends: all(RpcCall, $3)
 //@ ensures[C20,C01,C06] fails_exactly_when_the_proxy_reports_an_error: all(RpcCall, $2 == (result == nil)) && (none(RpcCall) ==> result != nil)
-//@ ensures[C20] connection_closed: emitted(RpcCall(_, _, _)) ==> count(RpcClose(_)) == 1
+//@ ensures[C20] connection_closed: emitted(RpcCall(_, _, _, _)) ==> count(RpcClose(_)) == 1
 
 //@ func (*cmd.stopCommand).run
 //@ attr inline = cmd.withRPCClient
@@ -105,9 +111,10 @@ package cmd
 //@ requires len(args) > 0
 //@ assigns *
 //@ may_emit *
-//@ ensures[C20] one_call_to_the_matching_rpc: count(RpcCall(_, _, _)) <= 1 && all(RpcCall, $1 == "kamal-proxy.Stop") && count(RpcDial(_, _)) == 1
+//@ ensures[C20] one_call_to_the_matching_rpc: count(RpcCall(_, _, _, _)) <= 1 && all(RpcCall, $1 == "kamal-proxy.Stop") && count(RpcDial(_, _)) == 1
+//@ ensures[C20,C06] the_reply_is_what_the_handler_sends: all(RpcCall, $3)
 //@ ensures[C20,C01,C06] fails_exactly_when_the_proxy_reports_an_error: all(RpcCall, $2 == (result == nil)) && (none(RpcCall) ==> result != nil)
-//@ ensures[C20] connection_closed: emitted(RpcCall(_, _, _)) ==> count(RpcClose(_)) == 1
+//@ ensures[C20] connection_closed: emitted(RpcCall(_, _, _, _)) ==> count(RpcClose(_)) == 1
 
 //@ func (*cmd.deployCommand).run
 //@ attr inline = cmd.withRPCClient
@@ -115,9 +122,10 @@ package cmd
 //@ requires len(args) > 0
 //@ assigns *
 //@ may_emit *
-//@ ensures[C20] one_call_to_the_matching_rpc: count(RpcCall(_, _, _)) <= 1 && all(RpcCall, $1 == "kamal-proxy.Deploy") && count(RpcDial(_, _)) == 1
+//@ ensures[C20] one_call_to_the_matching_rpc: count(RpcCall(_, _, _, _)) <= 1 && all(RpcCall, $1 == "kamal-proxy.Deploy") && count(RpcDial(_, _)) == 1
+//@ ensures[C20,C06] the_reply_is_what_the_handler_sends: all(RpcCall, $3)
 //@ ensures[C20,C01,C06] fails_exactly_when_the_proxy_reports_an_error: all(RpcCall, $2 == (result == nil)) && (none(RpcCall) ==> result != nil)
-//@ ensures[C20] connection_closed: emitted(RpcCall(_, _, _)) ==> count(RpcClose(_)) == 1
+//@ ensures[C20] connection_closed: emitted(RpcCall(_, _, _, _)) ==> count(RpcClose(_)) == 1
 
 //@ func (*cmd.Table).AddRow
 //@ attr trusted_summary
